@@ -1,14 +1,17 @@
 /-
 C11 — property theorems about the model in `NipyVerif.Model.C11`.
+Only property statements and their non-vacuity examples live here.
 -/
 import NipyVerif.Lemmas.C11
 
 namespace NipyVerif.C11
 
-/-- Shortest-path certificate: if the seeds are at 0, every edge out of a finite vertex is
-relaxed and every finite value is the length of a real path from a seed, then `d` is the true
-distance: finite values are minimum path lengths and `none` (∞) means unreachable.
-Arbitrary directed multigraph (loops, parallel edges, any weights). -/
+/-! ## Shortest paths -/
+
+/-- Shortest-path certificate (clause "shortest-path distances equal the true minimum path
+lengths, infinite when unreachable"): if the seeds are at 0, every edge out of a finite vertex is
+relaxed and every finite value is the length of a real walk from a seed, then `d` is the true
+distance.  Arbitrary directed multigraph (loops, parallel edges, zero weights). -/
 theorem sp_certificate_sound (g : Graph) (S : List Nat) (d : Nat → Option Rat)
     (h0 : ∀ s ∈ S, d s = some 0)
     (hrel : ∀ u v w a, (u, v, w) ∈ g.edges → d u = some a → ∃ b, d v = some b ∧ b ≤ a + w)
@@ -28,5 +31,325 @@ theorem sp_certificate_sound (g : Graph) (S : List Nat) (d : Nat → Option Rat)
     rw [hb] at hb'; cases hb'; exact hl
   · obtain ⟨b', hb', _⟩ := key s hs v l hp
     rw [hn] at hb'; cases hb'
+
+/-- Every finite entry that `dijkstra` (vectorised relaxation) or `voronoi_labelling`
+(sequential relaxation) stores is the length of a real walk from one of the seeds — for every
+graph, seed list and relaxation mode, whatever the weights. -/
+theorem sssp_dist_achievable (g : Graph) (vec : Bool) (seeds : List Nat) (v : Nat) (b : Rat)
+    (h : (sssp g vec seeds).dist.getD v none = some b) : ∃ s ∈ seeds, Path g s v b :=
+  (iter_inv g seeds vec g.V _ (init_inv g seeds)).1 v b h
+
+/-- `dijkstra` returns the true distances whenever the relaxation certificate (seeds at 0, every
+edge relaxed), which the model evaluates on its own output and the correspondence run observes to
+be `ok` on every case, holds.  PARTIAL: the loop invariant showing that the certificate always
+holds for non-negative weights (popped keys are monotone, `V` iterations suffice) is not proved. -/
+theorem dijkstra_correct_partial (g : Graph) (seeds : List Nat)
+    (hc : certOK g seeds (dijkstra g seeds) = true) (v : Nat) :
+    (∀ b, (dijkstra g seeds).getD v none = some b →
+        (∃ s ∈ seeds, Path g s v b) ∧ ∀ s ∈ seeds, ∀ l, Path g s v l → b ≤ l) ∧
+    ((dijkstra g seeds).getD v none = none → ∀ s ∈ seeds, ∀ l, ¬ Path g s v l) := by
+  simp only [certOK, Bool.and_eq_true, seedsZero, relaxedAll, List.all_eq_true, beq_iff_eq] at hc
+  apply sp_certificate_sound g seeds (fun v => (dijkstra g seeds).getD v none)
+  · exact hc.1
+  · intro u w' w a he hu
+    have := hc.2 (u, w', w) he
+    simp only [hu] at this
+    cases hv : (dijkstra g seeds).getD w' none with
+    | none => rw [hv] at this; simp at this
+    | some b => rw [hv] at this; simp only [decide_eq_true_eq] at this; exact ⟨b, rfl, this⟩
+  · intro v b hv
+    exact sssp_dist_achievable g true seeds v b hv
+
+/-- Voronoi clause ("assigns each reachable vertex to a nearest seed in graph distance and marks
+unreachable vertices"): when the Voronoi certificate holds (evaluated by the model on its output,
+observed `ok` on every case), an unlabelled vertex is reachable from no seed, and a vertex
+labelled `i` is joined to seed number `i` by a walk that is no longer than any walk from any seed.
+PARTIAL for the same reason as `dijkstra_correct_partial`. -/
+theorem voronoi_nearest_partial (g : Graph) (seeds : List Nat) (lab : List (Option Nat))
+    (hc : voronoiCert g seeds lab = true) (v : Nat) (hv : v < g.V) :
+    (lab.getD v none = none → ∀ s ∈ seeds, ∀ l, ¬ Path g s v l) ∧
+    (∀ i, lab.getD v none = some i → ∃ s b, seeds[i]? = some s ∧ Path g s v b ∧
+        ∀ s' ∈ seeds, ∀ l, Path g s' v l → b ≤ l) := by
+  simp only [voronoiCert, Bool.and_eq_true, List.all_eq_true, List.mem_range] at hc
+  obtain ⟨⟨hS, hI⟩, hL⟩ := hc
+  have hLv := hL v hv
+  have hDS := dijkstra_correct_partial g seeds hS v
+  constructor
+  · intro hn
+    rw [hn] at hLv
+    exact hDS.2 (by simpa using hLv)
+  · intro i hi
+    rw [hi] at hLv
+    simp only at hLv
+    cases hp : (seeds.map (fun s => (s, dijkstra g [s])))[i]? with
+    | none => rw [hp] at hLv; simp at hLv
+    | some p =>
+        rw [hp] at hLv
+        simp only [Bool.and_eq_true, beq_iff_eq] at hLv
+        obtain ⟨hsome, heq⟩ := hLv
+        have hmem : p ∈ seeds.map (fun s => (s, dijkstra g [s])) := List.mem_of_getElem? hp
+        have hcert := hI p hmem
+        rw [List.getElem?_map] at hp
+        cases hs : seeds[i]? with
+        | none => rw [hs] at hp; simp at hp
+        | some s =>
+            rw [hs] at hp
+            simp only [Option.map_some, Option.some.injEq] at hp
+            subst hp
+            simp only at hcert heq
+            obtain ⟨b, hb⟩ := Option.isSome_iff_exists.mp hsome
+            rw [hb] at heq
+            have h1 := (dijkstra_correct_partial g [s] hcert v).1 b heq
+            obtain ⟨⟨s0, hs0, hpath⟩, _⟩ := h1
+            simp only [List.mem_singleton] at hs0
+            subst hs0
+            exact ⟨s0, b, rfl, hpath, (hDS.1 b hb).2⟩
+
+/-! ## Connected components -/
+
+/-- Component clause, direction "reachable ⇒ same label": when the closure certificate holds
+(every vertex labelled, every edge joins equal labels — evaluated by the model on the output of
+`cc`, observed `ok` on every symmetric case) two vertices joined by a chain of edges carry the
+same label.  PARTIAL: that `lil_cc` always produces a closed labelling, and that equal labels
+imply a chain, are checked by the oracle against union–find, not proved. -/
+theorem cc_connected_same_label_partial (g : Graph) (lab : List (Option Nat))
+    (hc : ccClosed g lab = true) (u v : Nat) (h : Conn g u v) :
+    lab.getD u none = lab.getD v none := by
+  simp only [ccClosed, Bool.and_eq_true, List.all_eq_true, beq_iff_eq] at hc
+  induction h with
+  | refl => rfl
+  | step _ he ih =>
+      rcases he with he | he
+      · rw [ih]; exact hc.2 _ he
+      · rw [ih]; exact (hc.2 _ he).symm
+
+/-! ## Spanning forest -/
+
+/-- Spanning-forest clause, the part proved: every edge `kruskal` selects is an edge of the graph
+(or the reverse of one) with its own weight.  Acyclicity, spanning and minimality are oracle-only
+(union–find and a reference minimum spanning forest on every case). -/
+theorem kruskal_edges_subset (g : Graph) (x : Edge) (h : x ∈ kruskal g) :
+    x ∈ g.edges ∨ (x.2.1, x.1, x.2.2) ∈ g.edges := by
+  unfold kruskal at h
+  rcases kruskalLoop_subset _ _ _ _ x h with h | h | h
+  · simp at h
+  · exact Or.inl (by simpa [sortByWeight, List.mem_mergeSort] using h)
+  · exact Or.inr (by simpa [sortByWeight, List.mem_mergeSort] using h)
+
+/-! ## Structural operations against the weighted adjacency matrix -/
+
+/-- `wgraph_from_adjacency`: the graph built from a matrix has that matrix as adjacency. -/
+theorem fromDense_adj (V : Nat) (M : Nat → Nat → Rat) (i j : Nat) (hi : i < V) (hj : j < V) :
+    (fromDense V M).adj i j = M i j := fromDense_adj' V M i j hi hj
+
+/-- `symmeterize`: the adjacency becomes the symmetric part `(A + Aᵀ)/2` (parallel edges, loops
+and zero weights included). -/
+theorem symmeterize_adj (g : Graph) (i j : Nat) (hi : i < g.V) (hj : j < g.V) :
+    (symmeterize g).adj i j = (g.adj i j + g.adj j i) / 2 := fromDense_adj' _ _ i j hi hj
+
+/-- the symmetrised graph is symmetric -/
+theorem symmeterize_symmetric (g : Graph) (i j : Nat) (hi : i < g.V) (hj : j < g.V) :
+    (symmeterize g).adj i j = (symmeterize g).adj j i := by
+  rw [symmeterize_adj g i j hi hj, symmeterize_adj g j i hj hi]; ring
+
+/-- `anti_symmeterize`: the adjacency becomes the antisymmetric part `(A − Aᵀ)/2`. -/
+theorem antiSymmeterize_adj (g : Graph) (i j : Nat) (hi : i < g.V) (hj : j < g.V) :
+    (antiSymmeterize g).adj i j = (g.adj i j - g.adj j i) / 2 := fromDense_adj' _ _ i j hi hj
+
+/-- `cut_redundancies` preserves the weighted adjacency matrix (weights of repeated edges add). -/
+theorem cutRedundancies_adj (g : Graph) (i j : Nat) (hi : i < g.V) (hj : j < g.V) :
+    (cutRedundancies g).adj i j = g.adj i j := by
+  unfold cutRedundancies
+  rw [fromSupport_adj' _ _ _ i j hi hj]
+  by_cases h : hasEdge g.edges i j = true
+  · simp [h]
+  · simp only [h]
+    exact (adjL_zero_of_not_hasEdge g.edges i j (by simpa using h)).symm
+
+/-- `remove_trivial_edges` zeroes the diagonal and leaves every other entry unchanged. -/
+theorem removeTrivial_adj (g : Graph) (i j : Nat) :
+    (removeTrivial g).adj i j = if i = j then 0 else g.adj i j := by
+  unfold removeTrivial Graph.adj
+  simp only
+  induction g.edges with
+  | nil => simp [adjL]
+  | cons e es ih =>
+      rw [List.filter_cons, adjL_cons]
+      by_cases h : e.1 = e.2.1
+      · have hb : (e.1 != e.2.1) = false := by simp [h]
+        rw [hb]; simp only [Bool.false_eq_true, if_false]
+        rw [ih]
+        by_cases hij : i = j
+        · simp [hij]
+        · have : ¬ (e.1 = i ∧ e.2.1 = j) := by rintro ⟨h1, h2⟩; exact hij (by rw [← h1, ← h2, h])
+          simp [hij, this]
+      · have hb : (e.1 != e.2.1) = true := by simp [h]
+        rw [hb]; simp only [if_true]
+        rw [adjL_cons, ih]
+        by_cases hij : i = j
+        · subst hij
+          have : ¬ (e.1 = i ∧ e.2.1 = i) := by rintro ⟨h1, h2⟩; exact h (by rw [h1, h2])
+          simp [this]
+        · simp [hij]
+
+/-- `normalize(0)` scales row `i` of the adjacency matrix by `1 / (row sum)`; a row of sum 0 is
+left as it is. -/
+theorem normalize_rows_adj (g : Graph) (i j : Nat) (hi : i < g.V) (hj : j < g.V) :
+    (normalize g 0).adj i j = invOr1 (rowSum g i) * g.adj i j := by
+  unfold normalize; simp only [if_true]
+  exact fromDense_adj' _ _ i j hi hj
+
+/-- after `normalize(0)` the weights leaving each vertex with a non-zero sum add up to 1. -/
+theorem normalize_rows_sum_to_one (g : Graph) (i : Nat) (hi : i < g.V) (hs : rowSum g i ≠ 0) :
+    rowSum (normalize g 0) i = 1 := by
+  have hV : (normalize g 0).V = g.V := by unfold normalize; simp [fromDense]
+  unfold rowSum at *
+  rw [hV]
+  have : (List.range g.V).map (fun j => (normalize g 0).adj i j) =
+      (List.range g.V).map (fun j => invOr1 (rowSum g i) * g.adj i j) := by
+    apply List.map_congr_left
+    intro j hj
+    exact normalize_rows_adj g i j hi (List.mem_range.mp hj)
+  rw [this, List.sum_map_mul_left]
+  unfold rowSum invOr1
+  rw [if_neg hs]
+  field_simp
+
+/-- `normalize(1)`: column scaling, and columns with a non-zero sum add up to 1. -/
+theorem normalize_cols_sum_to_one (g : Graph) (j : Nat) (hj : j < g.V) (hs : colSum g j ≠ 0) :
+    colSum (normalize g 1) j = 1 := by
+  have hV : (normalize g 1).V = g.V := by unfold normalize; simp [fromDense]
+  unfold colSum at *
+  rw [hV]
+  have : (List.range g.V).map (fun i => (normalize g 1).adj i j) =
+      (List.range g.V).map (fun i => g.adj i j * invOr1 (colSum g j)) := by
+    apply List.map_congr_left
+    intro i hi
+    unfold normalize; simp only [Nat.one_ne_zero, if_false]
+    exact fromDense_adj' _ _ i j (List.mem_range.mp hi) hj
+  rw [this, List.sum_map_mul_right]
+  unfold colSum invOr1
+  rw [if_neg hs]
+  field_simp
+
+/-- `concatenate_graphs`: the first diagonal block of the adjacency matrix is that of `G1`
+(no hypothesis on `G1`: the shifted edges of `G2` never reach it). -/
+theorem concat_adj_left (g1 g2 : Graph) (i j : Nat) (hi : i < g1.V) :
+    (concat g1 g2).adj i j = g1.adj i j := by
+  unfold concat Graph.adj
+  simp only
+  rw [adjL_append]
+  have : adjL (g2.edges.map (fun e => (g1.V + e.1, g1.V + e.2.1, e.2.2))) i j = 0 := by
+    induction g2.edges with
+    | nil => simp [adjL]
+    | cons e es ih =>
+        rw [List.map_cons, adjL_cons, ih]
+        have : ¬ (g1.V + e.1 = i ∧ g1.V + e.2.1 = j) := by omega
+        simp [this]
+  rw [this, add_zero]
+
+/-- `concatenate_graphs`: the second diagonal block is the adjacency matrix of `G2`. -/
+theorem concat_adj_right (g1 g2 : Graph) (i j : Nat)
+    (hwf : ∀ e ∈ g1.edges, e.1 < g1.V) :
+    (concat g1 g2).adj (g1.V + i) (g1.V + j) = g2.adj i j := by
+  unfold concat Graph.adj
+  simp only
+  rw [adjL_append]
+  have h1 : adjL g1.edges (g1.V + i) (g1.V + j) = 0 := by
+    revert hwf
+    induction g1.edges with
+    | nil => intro _; simp [adjL]
+    | cons e es ih =>
+        intro hwf
+        rw [adjL_cons, ih (fun e' he' => hwf e' (List.mem_cons_of_mem _ he'))]
+        have := hwf e (by simp)
+        have : ¬ (e.1 = g1.V + i ∧ e.2.1 = g1.V + j) := by omega
+        simp [this]
+  have h2 : adjL (g2.edges.map (fun e => (g1.V + e.1, g1.V + e.2.1, e.2.2))) (g1.V + i) (g1.V + j)
+      = adjL g2.edges i j := by
+    induction g2.edges with
+    | nil => simp [adjL]
+    | cons e es ih =>
+        rw [List.map_cons, adjL_cons, adjL_cons, ih]
+        simp
+  rw [h1, h2, zero_add]
+
+/-- `subgraph(valid)` keeps exactly the edges whose two ends are retained, renumbered by the
+number of retained vertices before each end, with their weights. -/
+theorem subgraph_edges (g h : Graph) (valid : List Bool) (hs : subgraph g valid = some h) (e' : Edge) :
+    e' ∈ h.edges ↔ ∃ e ∈ g.edges, valid.getD e.1 false = true ∧ valid.getD e.2.1 false = true ∧
+      e' = (renumb valid e.1, renumb valid e.2.1, e.2.2) := by
+  unfold subgraph at hs
+  split at hs
+  · simp at hs
+  · simp only [Option.some.injEq] at hs
+    subst hs
+    simp only [List.mem_map, List.mem_filter, Bool.and_eq_true]
+    constructor
+    · rintro ⟨e, ⟨he, h1, h2⟩, rfl⟩; exact ⟨e, he, h1, h2, rfl⟩
+    · rintro ⟨e, he, h1, h2, rfl⟩; exact ⟨e, ⟨he, h1, h2⟩, rfl⟩
+
+/-! ## Builders -/
+
+/-- `eps_nn`: the adjacency entry of `(i, j)` is the (clipped) distance exactly when `i ≠ j` and
+that distance is below `eps`, and 0 (no edge) otherwise. -/
+theorem epsNN_adj (n : Nat) (dist : List (List Rat)) (eps tiny : Rat) (i j : Nat)
+    (hi : i < n) (hj : j < n) :
+    (epsNN n dist eps tiny).adj i j =
+      if i ≠ j ∧ max (getM dist i j) tiny < eps then max (getM dist i j) tiny else 0 :=
+  fromDense_adj' _ _ i j hi hj
+
+/-- `knn`: `(i, j)` carries the distance exactly when `i ≠ j` and `i` is within the `k`-th
+smallest distance of column `j` or `j` within that of column `i` (symmetrised k-nearest
+neighbours, `k` clamped to `n − 1`); no other entry is set. -/
+theorem knn_adj (n : Nat) (dist : List (List Rat)) (k : Nat) (i j : Nat) (hi : i < n) (hj : j < n) :
+    (knn n dist k).adj i j =
+      if i ≠ j ∧ (getM dist i j ≤ kthOfCol dist n j (min k (n - 1)) ∨
+                  getM dist j i ≤ kthOfCol dist n i (min k (n - 1)))
+      then getM dist i j else 0 := by
+  unfold knn
+  simp only
+  rw [fromDense_adj' _ _ i j hi hj]
+  have hget : ∀ c, c < n → ((List.range n).map (fun j => kthOfCol dist n j (min k (n - 1)))).getD c 0
+      = kthOfCol dist n c (min k (n - 1)) := by
+    intro c hc
+    simp [List.getD_eq_getElem?_getD, hc]
+  simp only [hget j hj, hget i hi, Bool.or_eq_true, decide_eq_true_eq]
+
+/-- `cross_eps`: the edge list is exactly the pairs whose squared distance is below `eps`,
+weighted by that (clipped) squared distance. -/
+theorem crossEps_mem (n1 n2 : Nat) (sq : List (List Rat)) (eps tiny : Rat) (i j : Nat) (w : Rat) :
+    (i, j, w) ∈ crossEps n1 n2 sq eps tiny ↔
+      i < n1 ∧ j < n2 ∧ getM sq i j < eps ∧ w = max (getM sq i j) tiny := by
+  unfold crossEps
+  simp only [List.mem_flatMap, List.mem_range, List.mem_filterMap]
+  constructor
+  · rintro ⟨i', hi', j', hj', h⟩
+    split at h
+    · next hlt =>
+        simp only [Option.some.injEq, Prod.mk.injEq] at h
+        obtain ⟨rfl, rfl, rfl⟩ := h
+        exact ⟨hi', hj', hlt, rfl⟩
+    · simp at h
+  · rintro ⟨hi, hj, hlt, rfl⟩
+    exact ⟨i, hi, j, hj, by simp [hlt]⟩
+
+/-! ## Non-vacuity: concrete objects meeting the hypotheses -/
+
+/-- parallel edges 0→1 (3 and 5), then 1→2: the case on which the unrepaired code answered [0,5,4] -/
+example : dijkstra ⟨3, [(0, 1, 3), (0, 1, 5), (1, 2, 1)]⟩ [0] = [some 0, some 3, some 4] := by decide +kernel
+example : certOK ⟨3, [(0, 1, 3), (0, 1, 5), (1, 2, 1)]⟩ [0]
+    (dijkstra ⟨3, [(0, 1, 3), (0, 1, 5), (1, 2, 1)]⟩ [0]) = true := by decide +kernel
+example : voronoi ⟨4, [(0, 1, 1), (1, 0, 1), (1, 2, 0), (2, 1, 0)]⟩ [0, 2] = [some 0, some 1, some 1, none] := by
+  decide +kernel
+example : voronoiCert ⟨4, [(0, 1, 1), (1, 0, 1), (1, 2, 0), (2, 1, 0)]⟩ [0, 2]
+    (voronoi ⟨4, [(0, 1, 1), (1, 0, 1), (1, 2, 0), (2, 1, 0)]⟩ [0, 2]) = true := by decide +kernel
+example : cc ⟨4, [(0, 3, 1), (3, 0, 1)]⟩ = [some 0, some 1, some 2, some 0] := by decide +kernel
+example : ccClosed ⟨4, [(0, 3, 1), (3, 0, 1)]⟩ (cc ⟨4, [(0, 3, 1), (3, 0, 1)]⟩) = true := by decide +kernel
+example : rowSum ⟨3, [(1, 0, 1), (0, 1, 1), (0, 2, 3)]⟩ 0 ≠ 0 := by decide +kernel
+example : (normalize ⟨3, [(1, 0, 1), (0, 1, 1), (0, 2, 3)]⟩ 0).edges = [(0, 1, 1/4), (0, 2, 3/4), (1, 0, 1)] := by
+  decide +kernel
+example : (subgraph ⟨4, [(0, 1, 1), (1, 3, 2), (3, 3, 3), (2, 3, 4)]⟩ [false, true, false, true]).map (·.edges)
+    = some [(0, 1, 2), (1, 1, 3)] := by decide +kernel
 
 end NipyVerif.C11
